@@ -63,7 +63,11 @@ Section BLoop.
     let backoff := negb (bs_destword s =? 0) && (bs_pos s <? bn) && negb (cell_is_space (bs_pos s)) in
     let pos := if backoff then bs_srcword s else bs_pos s in
     let keep := if backoff then Z.to_nat (bs_destword s) else length (bs_out s) in
-    BOk (bskip (length inp) pos) (firstn keep (rev (bs_out s))) (rev (bs_pm s)).
+    let consumed := bskip (length inp) pos in
+    let old := rev (bs_pm s) in
+    (* the blanks skipped at the end are mapped to the final output length *)
+    BOk consumed (firstn keep (rev (bs_out s)))
+        (firstn (Z.to_nat pos) old ++ repeat (Z.of_nat keep) (Z.to_nat (consumed - pos)) ++ skipn (Z.to_nat consumed) old).
 
   Fixpoint bloop (fuel : nat) (s : bstate) : bresult :=
     match fuel with
